@@ -39,7 +39,7 @@ func TestCheck(t *testing.T) {
 	e := &env{
 		r: r, h: h, http: map[string]*tbench.HTTPClient{},
 		answerWait: 30 * time.Second, reportWait: 5 * time.Second, dgramWait: 3 * time.Second,
-		overshoot: map[string]int{}, closest: map[string]map[string]any{}, samples: map[string]bool{},
+		dcEncOver: -1 << 30, overshoot: map[string]int{}, closest: map[string]map[string]any{}, samples: map[string]bool{},
 	}
 
 	// One plain-DNS server per configured maximum; the first bench also runs
@@ -112,10 +112,10 @@ func TestCheck(t *testing.T) {
 	protos := append([]proto(nil), boundary...)
 	if r.Thorough() {
 		protos = append(protos, grid...)
-		r.Exhaustive(true)
 	} else {
-		protos = append(protos, sampleProtos(r, grid, 1400)...)
+		protos = append(protos, sampleProtos(r, grid, 4500)...)
 	}
+	r.Extra("grid_enumerated_completely", r.Thorough())
 	r.Extra("grid_cells_total", len(grid))
 	r.Extra("boundary_cells_total", len(boundary))
 
@@ -146,6 +146,7 @@ func TestCheck(t *testing.T) {
 	r.Extra("max_overshoot_by_family", e.overshoot)
 	r.Extra("closest_to_limit_by_family", e.closest)
 	r.Extra("max_overshoot", maxOver)
+	r.Extra("dnscrypt_udp_max_encrypted_datagram_minus_limit_informational", e.dcEncOver)
 	infra := e.infra
 	for _, f := range fams {
 		if e.overshoot[f] == 0 {
